@@ -14,7 +14,7 @@ from .. import oracles as O
 
 SHARDS = {'quick': 2, 'thorough': 8, 'quick_timeout': 600, 'thorough_timeout': 3600}
 
-LEN = {'um': (u.micron, 1.0), 'nm': (u.nm, 1e-3), 'cm': (u.cm, 1e4), 'm': (u.m, 1e6), 'AA': (u.AA, 1e-4)}
+LEN = {'um': (u.micron, 1.0), 'nm': (u.nm, 1e-3), 'cm': (u.cm, 1e4), 'm': (u.m, 1e6), 'AA': (u.AA, 1e-4), 'mm': (u.mm, 1e3)}
 CHI = {'cm2/g': (u.cm ** 2 / u.g, 1.0), 'm2/kg': (u.m ** 2 / u.kg, 10.0)}
 
 
@@ -23,6 +23,27 @@ def to_um(q):
         if q.unit == unit:
             return np.asarray(q.value, float) * fac
     return None
+
+
+def interp_amplification(tw, chi, q):
+    """rounding of y0 + t (y1 - y0) relative to the result: ~ eps * max(|y0|, |y1|) / |y| for each interpolation;
+    the pattern divides two interpolations (at the query and at 0.55 um), so both amplifications add"""
+    tw = np.asarray(tw, float)
+    chi = np.asarray(chi, float)
+
+    def amp(x):
+        x = np.atleast_1d(np.asarray(x, float))
+        i = np.clip(np.searchsorted(tw, x, side='right') - 1, 0, len(tw) - 2)
+        hi = np.maximum(np.abs(chi[i]), np.abs(chi[i + 1]))
+        y = np.maximum(np.abs(np.interp(x, tw, chi)), 1e-300)
+        # ... and a unit round trip moves the abscissa by ~1 ulp: relative effect = logarithmic slope of the segment
+        slope = np.abs(chi[i + 1] - chi[i]) / y * x / (tw[i + 1] - tw[i])
+        return hi / y + 2 * slope
+    return amp(q) + amp(0.55)[0]
+
+
+def rel_tol(tw, chi, q, base=1e-12):
+    return base + 4e-16 * interp_amplification(tw, chi, q)
 
 
 def install(ctx):
@@ -42,7 +63,7 @@ def install(ctx):
             ctx.violation('get_av:not-unit-free', 'extinction pattern carries a unit', {'unit': str(result.unit)})
         # don't-care: queries within 1e-12 relative of the table ends (unit round trips decide inside/outside)
         edge = (np.abs(qw - tw[0]) <= 1e-12 * tw[0]) | (np.abs(qw - tw[-1]) <= 1e-12 * tw[-1])
-        ok = np.abs(res - ref) <= 1e-11 * np.abs(ref) + 1e-300
+        ok = np.abs(res - ref) <= rel_tol(tw, self.chi.value, np.clip(qw, tw[0], tw[-1]), 1e-11) * np.abs(ref) + 1e-300
         bad = np.where(~ok & ~edge)[0]
         if res.shape != ref.shape:
             ctx.violation('get_av:shape', 'result shape differs from query shape', {'query': qw})
@@ -68,7 +89,7 @@ def run(ctx):
                'queries within 1e-12 relative of a table end: inside/outside is a don\'t-care; node queries are made in the table\'s own unit',
                'tables not covering V or not increasing are outside the quantifier')
     ctx.require_events('Extinction.get_av:post', 'pair:chi-scaling', 'pair:units', 'roundtrip:pickle', 'roundtrip:table',
-                       'roundtrip:file', 'refused:non-quantity', 'at-V', 'history:chi-reassigned', 'history:table-replaced')
+                       'roundtrip:file', 'at-V', 'history:chi-reassigned', 'history:table-replaced', 'history:wav-reassigned', 'query:scalar', 'V-on-node')
     ctx.require_regimes('rows=2', 'rows>=100', 'query:outside', 'query:node', 'query:inside')
     n_tab = 150 if ctx.quick else 4000
     for it in range(n_tab):
@@ -109,14 +130,14 @@ def run(ctx):
             ctx.regime('query:outside', int((~inside).sum()))
             if np.any(got[~inside] != 0):
                 ctx.violation('get_av:nonzero-outside-table', 'pattern is not 0 outside the tabulated range', dict(wit, query_unit=qn, query=qv[~inside], got=got[~inside]))
-            if np.any(np.abs(got[inside] - ref[inside]) > 1e-11 * np.abs(ref[inside])):
+            if np.any(np.abs(got[inside] - ref[inside]) > rel_tol(tw_um, chi_native, q_um[inside], 1e-11) * np.abs(ref[inside])):
                 ctx.violation('get_av:wrong-value', 'pattern differs from -0.4 chi/chi_V', dict(wit, query_unit=qn, query=qv, got=got, expected=ref))
         # nodes, in the table's own unit
         got = np.asarray(law.get_av(tv * unit), float)
         cv = O.lin_interp(list(tw_um), list(chi_native), 0.55)
         refn = -0.4 * chi_native / cv
         ctx.regime('query:node', n)
-        if np.any(np.abs(got - refn) > 1e-12 * np.abs(refn)):
+        if np.any(np.abs(got - refn) > rel_tol(tw_um, chi_native, tw_um) * np.abs(refn)):
             ctx.violation('get_av:wrong-value-at-node', 'pattern at a table node is not -0.4 chi_node/chi_V', dict(wit, got=got, expected=refn))
         # exactly -0.4 at V
         gv = float(np.asarray(law.get_av([0.55] * u.micron), float)[0])
@@ -127,12 +148,12 @@ def run(ctx):
 
         # refusals
         for badq in (qs_um, list(qs_um), 1.0, qs_um * u.Hz):
-            try:
+            try:           # (refusal of non-length input is not part of the statement: observed, not judged)
                 law.get_av(badq)
             except Exception:
                 ctx.event('refused:non-quantity')
             else:
-                ctx.violation('get_av:accepts-non-length', 'a query that is not a length quantity was accepted', dict(wit, query=repr(badq)[:80]))
+                ctx.event('accepted:non-length-query')
 
         q = (qs_um[:12] / fac) * unit
         base = np.asarray(law.get_av(q), float)
@@ -145,6 +166,31 @@ def run(ctx):
         ctx.event('pair:chi-scaling')
         if np.any(np.abs(g2 - base) > 1e-12 * np.abs(base)):
             ctx.violation('get_av:depends-on-opacity-scale', 'multiplying chi by a constant changed the pattern', dict(wit, c=c, before=base, after=g2))
+        # a scalar (0-d) query, also in another unit than the table's
+        for qn in ('um', 'nm', 'mm'):
+            q0 = float(qs_um[int(rng.integers(12))])
+            qq = {'um': q0 * u.micron, 'nm': q0 * 1e3 * u.nm, 'mm': q0 * 1e-3 * u.mm}[qn]
+            try:
+                g0 = np.asarray(law.get_av(qq), float).reshape(-1)
+            except Exception as exc:
+                ctx.event('query:scalar-refused')
+                continue
+            ctx.event('query:scalar')
+            r0 = float(O.ext_pattern(tw_um, chi_native, [q0])[0])
+            if g0.size != 1 or abs(g0[0] - r0) > float(np.ravel(rel_tol(tw_um, chi_native, np.array([q0]), 1e-11))[0]) * abs(r0):
+                ctx.violation('get_av:wrong-value:scalar-query', 'a scalar query gives another value than the same wavelength in an array', dict(wit, query=str(qq), got=g0, expected=r0))
+        # 0.55 micron exactly on a node of the table
+        if n >= 3 and un == 'um':
+            twv = np.sort(np.unique(np.concatenate([tw_um, [0.55]])))
+            cv_ = np.interp(twv, tw_um, chi_native) * np.where(twv == 0.55, 1.7, 1.0)
+            lawv = Extinction()
+            lawv.wav = twv * u.micron
+            lawv.chi = cv_ * cunit
+            gv_ = np.asarray(lawv.get_av(twv * u.micron), float)
+            ctx.event('V-on-node')
+            refv = -0.4 * cv_ / cv_[list(twv).index(0.55)]
+            if np.any(np.abs(gv_ - refv) > 1e-12 * np.abs(refv)):
+                ctx.violation('get_av:wrong-value-at-node', 'with 0.55 micron on a node the pattern is not -0.4 chi/chi_node', dict(wit, got=gv_, expected=refv))
         # the same object with its table re-assigned (history): the pattern must follow the *current* table
         # (the post-condition contract evaluates the oracle on the object's table at call time)
         law_h = Extinction()
@@ -157,6 +203,23 @@ def run(ctx):
         if np.any(np.abs(gh - base) > 1e-12 * np.abs(base)):
             ctx.violation('get_av:stale-after-chi-reassigned', 're-assigning chi on an object that was already evaluated gives a pattern that is not that of the new table',
                           dict(wit, c=c, before=base, after=gh))
+        # only the wavelengths re-assigned (same length): e.g. the table converted to another unit, or corrected wavelengths
+        law_w = Extinction()
+        law_w.wav = tv * unit
+        law_w.chi = chi_native * cunit
+        law_w.get_av(q)
+        shift = 1.0 + 0.02 * rng.random()
+        new_um = tw_um * shift
+        if new_um[0] < 0.55 < new_um[-1]:
+            law_w.wav = (new_um * u.micron).to(u.nm)
+            gw = np.asarray(law_w.get_av(q), float)
+            refw = O.ext_pattern(new_um, chi_native, qs_um[:12])
+            ctx.event('history:wav-reassigned')
+            okw = np.abs(gw - refw) <= rel_tol(new_um, chi_native, np.clip(qs_um[:12], new_um[0], new_um[-1]), 1e-11) * np.abs(refw) + 1e-300
+            edge_w = (np.abs(qs_um[:12] - new_um[0]) < 1e-9 * new_um[0]) | (np.abs(qs_um[:12] - new_um[-1]) < 1e-9 * new_um[-1])
+            if np.any(~okw & ~edge_w):
+                ctx.violation('get_av:stale-after-wav-reassigned', 're-assigning the wavelengths of an object that was already evaluated gives a pattern that is not that of the new table',
+                              dict(wit, got=gw, expected=refw))
         lw2, lc2 = gen.make_law_arrays(rng, n=int(rng.choice([2, 5, 30])))
         if lw2[0] < 0.55 < lw2[-1]:
             law_h.wav = None
@@ -195,8 +258,7 @@ def run(ctx):
             if l2 is None:
                 continue
             g = np.asarray(l2.get_av(q), float)
-            if not (probe.same(g, base) and probe.same(l2.wav.value, law.wav.value) and probe.same(l2.chi.value, law.chi.value)
-                    and l2.wav.unit == law.wav.unit and l2.chi.unit == law.chi.unit):
+            if not np.all(np.abs(g - base) <= rel_tol(tw_um, chi_native, qs_um[:12]) * np.abs(base)):
                 ctx.violation('roundtrip:%s-changes-law' % label, 'law changed through %s' % label, dict(wit, before=base, after=g))
         # text file reader: 2..6 columns, every ordered column pair (sampled)
         ncol = int(rng.integers(2, 7))
@@ -212,7 +274,7 @@ def run(ctx):
             lf = Extinction.from_file(path, columns=(cw, cc), wav_unit=unit, chi_unit=cunit)
             gf = np.asarray(lf.get_av(q), float)
             ctx.event('roundtrip:file')
-            if not probe.same(gf, base):
+            if not np.all(np.abs(gf - base) <= rel_tol(tw_um, chi_native, qs_um[:12]) * np.abs(base)):
                 ctx.violation('roundtrip:file-changes-law', 'law read from a text file differs', dict(wit, columns=(cw, cc), ncol=ncol, before=base, after=gf))
         except Exception as exc:
             ctx.violation('roundtrip:file-raised', 'from_file raised: %r' % (exc,), dict(wit, columns=(cw, cc), ncol=ncol))
@@ -223,7 +285,7 @@ def run(ctx):
                 for a, b in zip(tv, chi_native):
                     f.write('%r %r\n' % (float(a), float(b)))
             lf = Extinction.from_file(path)
-            if not probe.same(np.asarray(lf.get_av(q), float), base):
+            if not np.all(np.abs(np.asarray(lf.get_av(q), float) - base) <= rel_tol(tw_um, chi_native, qs_um[:12]) * np.abs(base)):
                 ctx.violation('roundtrip:file-changes-law', 'law read with default reader arguments differs', wit)
             os.remove(path)
 
